@@ -163,7 +163,7 @@ def replicas_check(prop, tag, items, shard=2):
     return pc.run_shards(prop, tag, IMP_S, T, "let '(b, r, s, x) := k in if replicas_ok b r s x then 0 else 1", lits, shard)
 
 
-def gen_sessions(ctx, salt, nsess, boards_choices, strategies_per, arrivals_fn=None, styles=('competitive', 'short', 'pass', None)):
+def gen_sessions(ctx, salt, nsess, boards_choices, strategies_per, arrivals_fn=None, styles=('competitive', 'short', 'pass', None), must=(), extra=None):
     r = lib.rng(ctx['seed'], salt)
     out = []
     for i in range(nsess):
@@ -199,11 +199,11 @@ def gen_sessions(ctx, salt, nsess, boards_choices, strategies_per, arrivals_fn=N
                 boards[k - 1]['deal'] = [list(range(13 * x, 13 * x + 13)) for x in suits]
                 forced[str(k)] = kind
             for a in arr:
-                a['forced'] = forced
+                a['forced'] = forced      # on these boards every seat also plays its lowest playable card: the first ruff is the deuce of trumps
         base = dict(boards=boards, arrivals=arr)
-        strats = ['rr'] + r.sample(STRATEGIES[1:], strategies_per - 1)
+        strats = ['rr'] + list(must) + r.sample([x for x in STRATEGIES[1:] if x not in must], strategies_per - 1 - len(must))
         for st in strats:
-            out.append(dict(base, strategy=st, sched_seed=r.randint(0, 10 ** 6)))
+            out.append(dict(base, strategy=st, sched_seed=r.randint(0, 10 ** 6), **(extra or {})))
     return out
 
 
